@@ -187,40 +187,43 @@ type Cluster struct {
 	fairMode   bool
 	hostile    bool // a hostile input is being delivered (panics are C08 violations)
 
-	vs              *VSModel
-	forksReported   int
-	shadowSeq       int
-	fairBoundV      int
-	capped          bool
-	fairCount       int // fair cycles executed
-	fairQuiescentAt int // fair cycle after which the network was first found quiescent (0: never)
-	storePointHook  func(n *SimNode, kind, phase string)
-	stepHook        func(s *Step)
-	blockHook       func(b *hg.Block)
-	finalHook       func()
-	byzHandler      func(s *Step)
-	byzGen          func(g *genState) *Step
-	observer        *SimNode
-	synthetic       bool
-	synthNears      [][2]string
-	realStart       time.Time
-	hostileSeen     bool
-	ffAccepted      *ffTriple
-	lastForged      *ffTriple
-	lastTampered    *ffTriple
-	lastTamperedOp  string
-	syn             *synthState
-	synTxn          int
-	refDag          *refDag
-	refFame         *refFame
-	recordWrites    bool
-	recorder        *recStore
-	curTask         *task
-	taskHarnessErr  *harnessError
-	instSeq         int
-	emitted         map[string]string
-	emitScanned     int
-	frameHashes     map[int]frameRef
+	vs               *VSModel
+	forksReported    int
+	shadowSeq        int
+	fairBoundV       int
+	capped           bool
+	fairCount        int // fair cycles executed
+	fairQuiescentAt  int // fair cycle after which the network was first found quiescent (0: never)
+	storePointHook   func(n *SimNode, kind, phase string)
+	stepHook         func(s *Step)
+	blockHook        func(b *hg.Block)
+	finalHook        func()
+	byzHandler       func(s *Step)
+	byzGen           func(g *genState) *Step
+	observer         *SimNode
+	synthetic        bool
+	synthNears       [][2]string
+	realStart        time.Time
+	hostileSeen      bool
+	ffAccepted       *ffTriple
+	lastForged       *ffTriple
+	lastForgedEv     *forgedEvent
+	lastForgedVictim int
+	lastForgedEpoch  int
+	lastTampered     *ffTriple
+	lastTamperedOp   string
+	syn              *synthState
+	synTxn           int
+	refDag           *refDag
+	refFame          *refFame
+	recordWrites     bool
+	recorder         *recStore
+	curTask          *task
+	taskHarnessErr   *harnessError
+	instSeq          int
+	emitted          map[string]string
+	emitScanned      int
+	frameHashes      map[int]frameRef
 }
 
 func clonePeers(ps []*peers.Peer) []*peers.Peer {
